@@ -11,7 +11,7 @@ Monitors:
              yield injection inside construct/*.py); a global sequence number at operation start/end lets the
              evidence count operation pairs from different threads that overlapped in time on the same construct
 """
-import io, os, sys, re, threading, itertools, tempfile, time, random
+import io, os, sys, re, threading, itertools, tempfile, time, random, shutil
 from ..common import tag
 from ..veq import norm
 from .. import monitors
@@ -20,7 +20,8 @@ LEVEL = "exploration"
 WORKERS = 8
 RULE = ("pool of ~45 constructs sharing sub-constructs and the global singletons (incl. compiled instances and constructs with Rebuild lambdas); "
         "operations parse/build/sizeof/compile on valid and invalid inputs; histories of seeded random operations, sequential and split over "
-        "4/8/16 threads (thorough: LINE-level yield injection); entry points x offsets 0..5 x bytes/bytearray/memoryview/file. non-trivial = an "
+        "4/8/16 threads (thorough: LINE-level yield injection); structural fingerprints (vars() of every reachable construct incl. user-supplied tables) taken "
+        "before the first use and compared at the end; entry points x offsets 0..5 x bytes/bytearray/memoryview/file. non-trivial = an "
         "operation that overlapped in time with another thread's operation on the same or a sub-construct-sharing construct, or a repetition "
         "after a failing call; distinct by (construct, op, input, schedule class)")
 ASSUMPTIONS = ["CPython with the GIL: schedules are bytecode-granular interleavings of Python frames; nothing is claimed for a free-threaded build",
@@ -360,9 +361,45 @@ def run(ctx):
         check(op, "after all histories:", "final")
     # ---- entry points
     entry_points(ctx, pool, rng)
+    # ---- the repository's own test-suite as one more workload under the mutation guard (one worker)
+    if ctx.index == ctx.nworkers - 1:
+        suite_under_guard(ctx)
     if ctx.index == 0:
         ctx.sample({"history_example": [opkey(ops, rng.choice(ops.ops)) for _ in range(8)], "threads": [4, 8, 16]})
         ctx.sample({"pool": [p[0] for p in pool]})
+
+
+def suite_under_guard(ctx):
+    """runs /repo's tests in a child process with rv.pytest_guard loaded: during every public parse/build/sizeof call of the
+    whole suite, library code must not write attributes of Construct objects that existed before the call"""
+    import subprocess, sys, json
+    from ..common import REPO, VERIF
+    out = os.path.join(tempfile.mkdtemp(prefix="rv-c17g-"), "guard.json")
+    env = dict(os.environ, RV_GUARD_OUT=out, PYTHONPATH=VERIF + os.pathsep + REPO)
+    try:
+        p = subprocess.run([sys.executable, "-B", "-m", "pytest", "-q", "-p", "rv.pytest_guard", "-p", "no:cacheprovider", "--benchmark-disable", "tests"], cwd=REPO, env=env,
+                           stdout=subprocess.PIPE, stderr=subprocess.STDOUT, timeout=1200)
+    except subprocess.TimeoutExpired:
+        ctx.notes["suite_under_guard"] = "timed out (not judged)"
+        return
+    try:
+        st = json.load(open(out))
+    except Exception:
+        ctx.notes["suite_under_guard"] = "the test-suite could not be run under the guard here (not judged): " + p.stdout.decode("utf8", "replace")[-200:]
+        return
+    finally:
+        shutil.rmtree(os.path.dirname(out), ignore_errors=True)
+    ctx.count("suite_public_calls_observed_under_guard", st["calls"])
+    ctx.count("suite_tests_run_under_guard", st["tests"])
+    ctx.ev()
+    allowed = {"Rebuffered", "Debugger"}           # the documented stateful exceptions
+    bad = {k: n for k, n in st["by_class"].items() if k.split(".")[0] not in allowed}
+    if bad:
+        k = sorted(bad)[0]
+        ctx.violation("construct-mutated-by-use:" + k, "while the repository's own tests ran, library code wrote attributes of pre-existing constructs during public calls: %r; first: %r" % (bad, st["writes"][:3]),
+                      {"suite_under_guard": True, "writes": st["writes"][:10]})
+    elif st["calls"] > 1000:
+        ctx.nontrivial("suite-under-guard", st["tests"])
 
 
 def entry_points(ctx, pool, rng):
